@@ -21,7 +21,7 @@ pub struct Config {
     pub max_live_hint: u16,
 }
 
-pub const CLASSES: [&str; 23] = [
+pub const CLASSES: [&str; 25] = [
     "insert",
     "extend",
     "remove",
@@ -45,10 +45,12 @@ pub const CLASSES: [&str; 23] = [
     "eq",
     "debug",
     "lockstep",
+    "corrupt",
+    "ser_de_error",
 ];
 
 fn base_weights() -> Vec<u32> {
-    vec![14, 10, 12, 4, 2, 12, 6, 4, 4, 4, 3, 3, 2, 2, 3, 1, 1, 1, 3, 2, 2, 1, 1]
+    vec![14, 10, 12, 4, 2, 12, 6, 4, 4, 4, 3, 3, 2, 2, 3, 1, 1, 1, 3, 2, 2, 1, 1, 0, 0]
 }
 
 fn ix(name: &str) -> usize {
@@ -78,6 +80,15 @@ pub fn make_config(profile: &str, run_seed: u64, tier_thorough: bool) -> Config 
     for (c, m) in &b {
         w[ix(c)] *= *m;
     }
+    // Failing media inside ordinary histories (base weight 0, so a multiplier would not do): a
+    // damaged stream, and a serializer / deserializer error at some component.
+    let media = match profile {
+        "C04" | "C05" => 4,
+        "C06" | "C13" => 2,
+        _ => 0,
+    };
+    w[ix("corrupt")] = media;
+    w[ix("ser_de_error")] = media;
     // Swarm: drop each non-essential class with probability 1/4.
     for (i, c) in CLASSES.iter().enumerate() {
         if !b.iter().any(|(n, _)| n == c) && rng.chance(1, 4) {
@@ -263,6 +274,24 @@ pub fn gen_op(rng: &mut Rng, cfg: &Config, class: usize, out: &mut Vec<Op>) {
             out.push(Op::EqCheck { a: slot, b });
         }
         "debug" => out.push(Op::DebugFmt { slot }),
+        "corrupt" => {
+            let dst = other(rng, slot);
+            out.push(Op::Corrupt {
+                src: slot,
+                dst,
+                enc: rng.below(crate::medium::NENC as u64) as u8,
+                faults: vec![StreamFault {
+                    kind: (*rng.pick(&["cut", "cut", "del", "dup", "alt", "alt", "delgroup", "dupgroup", "swap", "move"])).to_string(),
+                    pos: rng.below(1 << 20) as usize,
+                    arg: rng.below(8) as i64,
+                }],
+            });
+        }
+        "ser_de_error" => {
+            let dst = if ns >= 2 && rng.chance(2, 3) { other(rng, slot) } else { slot };
+            let inner = Op::RoundTrip { src: slot, dst, enc: rng.below(crate::medium::NENC as u64) as u8 };
+            out.push(Op::FaultAt { kind: (*rng.pick(&["de", "de", "ser"])).to_string(), k: rng.geometric(1, 60, 6) as u32, as_error: true, inner: Box::new(inner) });
+        }
         "lockstep" => {
             let b = other(rng, slot);
             out.push(Op::Lockstep { a: slot, b, on: rng.chance(3, 4) });
